@@ -299,20 +299,25 @@ def place(cx):
             continue
         ps = [a.arg for a in f.args.args][1:]
         res.check("OCC-PLACE", "%s.rotate_translate_local(translation, angle) parameter order" % cname, len(ps) == 2 and "transl" in ps[0] and "angle" in ps[1], c.mod, f, "%s.rotate_translate_local(%s)" % (cname, ", ".join(ps)), "position and orientation arrive in the wrong roles", qualname="%s.rotate_translate_local" % cname)
-    # 2. headings from velocity components
+    # 2. headings from velocity components (arguments canonicalised: locals and unpacked values inlined)
+    from ..flowtools import mentions
+
     n = 0
     for rel in sorted(repo.modules):
         if not rel.startswith("commonroad/") or "/visualization/" in rel:
             continue
         m = repo.modules[rel]
-        for c in ast.walk(m.tree):
-            if isinstance(c, ast.Call) and call_name(c) in ("math.atan2", "np.arctan2", "numpy.arctan2", "atan2") and len(c.args) == 2:
-                names = [{x.attr if isinstance(x, ast.Attribute) else (x.value if isinstance(x, ast.Constant) and isinstance(x.value, str) else None) for x in ast.walk(a)} for a in c.args]
-                if not any("velocity" in s or "velocity_y" in s for s in names):
-                    continue
-                n += 1
-                ok = "velocity_y" in names[0] and "velocity_y" not in names[1] and "velocity" in names[1]
-                res.check("OCC-PLACE", "heading = atan2(velocity_y, velocity) at %s:%s" % (rel, m.qualname(c)), ok, m, c, norm(c), "the heading of a point-mass state is computed with swapped velocity components")
+        for fdef in [x for x in ast.walk(m.tree) if isinstance(x, ast.FunctionDef)]:
+            frd = None
+            for c in walk_no_nested(fdef):
+                if isinstance(c, ast.Call) and call_name(c) in ("math.atan2", "np.arctan2", "numpy.arctan2", "atan2") and len(c.args) == 2:
+                    frd = frd or ReachingDefs(fdef)
+                    a0, a1 = [canon(x, frd, frd.stmt_of(c), []) for x in c.args]
+                    if not any(mentions(t, "velocity") or mentions(t, "velocity_y") for t in (a0, a1)):
+                        continue
+                    n += 1
+                    ok = mentions(a0, "velocity_y") and not mentions(a1, "velocity_y") and mentions(a1, "velocity")
+                    res.check("OCC-PLACE", "heading = atan2(velocity_y, velocity) at %s:%s" % (rel, m.qualname(c)), ok, m, c, norm(c), "the heading of a point-mass state is computed with swapped velocity components")
     if n < 3:
         raise AnalysisError("only %d heading computations found (3 confirmed by hand)" % n)
     # 3. initial occupancy is computed from the state being stored
